@@ -126,9 +126,25 @@ def own_nodes(fn):
             todo.append(c)
 
 
+def is_optimizer_module(tree) -> bool:
+    return any(isinstance(n, ast.ClassDef) and any("OptimizationAbstract" in U(b) for b in n.bases) for n in tree.body)
+
+
 def analyse_package(repo: Path, pkg: str, agents: set[str], helper_rng: dict):
+    """one fact record per optimizer class of the package: its own module plus the package's shared (non-optimizer) modules"""
     pdir = repo / "pyvolutionary" / pkg
-    mods = {p: parse(p) for p in sorted(pdir.glob("*.py")) if p.name != "__init__.py"}
+    allmods = {p: parse(p) for p in sorted(pdir.glob("*.py")) if p.name != "__init__.py"}
+    out = []
+    for p, t in allmods.items():
+        if is_optimizer_module(t):
+            mods = {q: u for q, u in allmods.items() if q == p or not is_optimizer_module(u)}
+            f = analyse_unit(repo, pkg, mods, agents, helper_rng)
+            if f:
+                out.append(f)
+    return out
+
+
+def analyse_unit(repo: Path, pkg: str, mods: dict, agents: set[str], helper_rng: dict):
     facts = {"package": pkg, "ctors": [], "coreStores": [], "badCopyUpdates": [], "objectiveRefs": [], "cfgWrites": [], "taskWrites": [],
              "rngOther": [], "fitnessReads": [], "directionReads": [], "whileLoops": [], "files": [str(p.relative_to(repo)) for p in mods]}
     opt_cls = None
@@ -605,9 +621,7 @@ def translate(repo: Path):
     core, helper_rng = analyse_core(repo)
     algos = []
     for pkg in exported_packages(repo):
-        f = analyse_package(repo, pkg, agents, helper_rng)
-        if f:
-            algos.append(f)
+        algos += analyse_package(repo, pkg, agents, helper_rng)
     algos.sort(key=lambda a: a["cls"])
     return algos, core
 
